@@ -21,7 +21,7 @@ pub const KEYWORDS: &[&str] = &[
 pub const PRELUDE: &[&str] = &[
     "Option", "Some", "None", "Result", "Ok", "Err", "Box", "Vec", "String", "ToString", "ToOwned", "Clone", "Copy", "Send", "Sync", "Sized", "Drop", "Fn", "FnMut", "FnOnce", "drop", "AsRef", "AsMut", "Into", "From", "Default", "Iterator", "Extend",
     "IntoIterator", "DoubleEndedIterator", "ExactSizeIterator", "Eq", "PartialEq", "Ord", "PartialOrd", "Unpin", "TryFrom", "TryInto", "FromIterator", "std", "core", "alloc", "usize", "isize", "u8", "u16", "u32", "u64", "u128", "i8", "i16", "i32", "i64",
-    "i128", "bool", "char", "str", "f32", "f64", "vec", "format", "panic", "print", "println", "assert", "debug_assert", "unreachable", "todo", "unimplemented", "write", "writeln", "matches", "Debug", "Hash",
+    "i128", "bool", "char", "str", "f32", "f64", "vec", "format", "panic", "print", "println", "assert", "debug_assert", "unreachable", "todo", "unimplemented", "write", "writeln", "matches",
 ];
 
 fn t(i: u8) -> Sym {
@@ -120,8 +120,9 @@ pub fn roles(c: &Carrier) -> Vec<(String, RoleKind)> {
 }
 
 pub const CURATED_UPPER: &[&str] = &[
+    // (Debug, Hash, Display, Iter, ... are not prelude items: legal user names)
     "State", "Node", "Action", "RuleKind", "Eof", "Quasiterminal", "QuasiterminalKind", "NonterminalKind", "Terminal", "Shift", "Reduce", "Accept", "S", "T", "N", "S0", "S1", "R0", "R1", "ACTION_TABLE", "GOTO_TABLE", "Error", "Item", "State2", "Node2",
-    "Action2", "RuleKind2", "Eof2", "Quasiterminal2", "QuasiterminalKind2", "NonterminalKind2", "ACTION_TABLE2", "GOTO_TABLE2", "__", "_0", "Output", "IntoIter", "Target", "Owned", "P", "Src", "Tok", "Reduce2",
+    "Action2", "RuleKind2", "Eof2", "Quasiterminal2", "QuasiterminalKind2", "NonterminalKind2", "ACTION_TABLE2", "GOTO_TABLE2", "__", "_0", "Output", "IntoIter", "Target", "Owned", "P", "Src", "Tok", "Reduce2", "Debug", "Hash", "Display", "Error2", "Item2", "Iter", "Peekable", "Chain", "Once", "Map", "Ordering", "Rc", "Cell",
 ];
 
 pub const CURATED_LOWER: &[&str] = &[
